@@ -210,6 +210,12 @@ func runCrypto(args []string) error {
 			for b := 0; b < nbits; b += stepb {
 				vs = append(vs, variant{fmt.Sprintf("flip-%d", b), flip(A.cookie, b), "invalid"})
 			}
+			// every cookie value presented below is a credential somewhere (another deployment, another session): none may be logged
+			for _, v := range vs {
+				if len(v.value) >= 24 {
+					s.seenCookies = append(s.seenCookies, v.value)
+				}
+			}
 			tid := 1000
 			for _, v := range vs {
 				for _, kind := range []string{"p", "i", "f"} {
@@ -383,6 +389,12 @@ func runCrypto(args []string) error {
 			}
 			ob, _ := json.Marshal(map[string]any{"kind": "scan", "redis": redis, "values_scanned": len(written) + len(storeVals), "secrets": len(secrets), "leaks": leaks})
 			wobs.Write(ob)
+			wobs.WriteByte('\n')
+			// the log of this whole run (C18 reads it): foreign-key cookies, other cookie types, truncations, bit flips, damaged store values
+			s.drainAll()
+			ln, lleaks, lmsgs := s.logScan()
+			lb, _ := json.Marshal(map[string]any{"kind": "logscan", "entries": ln, "leaks": lleaks, "messages": lmsgs, "redis": redis})
+			wobs.Write(lb)
 			wobs.WriteByte('\n')
 			s.close()
 		})
